@@ -130,18 +130,33 @@ def mk_value(desc):
             ds.add_delegations(d)
         return ds
     if t in ("ero", "pinfo"):
-        p = r["Path"]()
-        if len(v[0]) == 1:
-            p.set_symmetric(v[0][0])
+        # [payload, strict?]: payload = [a2z] (symmetric) | [a2z, z2a] | "graph id" | None
+        pl = v[0]
+        pt = r["PathRepresentationType"]
+        ptype = pt.Graph if isinstance(pl, str) else pt.Path
+        if t == "ero":
+            o = r["ERO"](ptype, strict=bool(v[1])) if len(v) > 1 else r["ERO"](ptype)
         else:
-            p.set(a2z=v[0][0], z2a=v[0][1])
-        o = r["ERO"]() if t == "ero" else r["PathInfo"]()
-        o.set(payload=p)
+            o = r["PathInfo"](ptype)
+        if isinstance(pl, str):
+            o.set(payload=pl)
+        elif pl is not None:
+            p = r["Path"]()
+            if len(pl) == 1:
+                p.set_symmetric(list(pl[0]))
+            else:
+                p.set(a2z=list(pl[0]), z2a=list(pl[1]))
+            o.set(payload=p)
         return o
     if t == "maint":
         mi = r["MaintenanceInfo"]()
-        for name, state in v[0]:
-            mi.add(name, minfo=r["MaintenanceEntry"](state=getattr(r["MaintenanceState"], state)))
+        for e in v[0]:
+            kw = {}
+            if len(e) > 2 and e[2]:
+                kw["deadline"] = e[2]
+            if len(e) > 3 and e[3]:
+                kw["expected_end"] = e[3]
+            mi.add(e[0], minfo=r["MaintenanceEntry"](state=getattr(r["MaintenanceState"], e[1]), **kw))
         mi.finalize()
         return mi
     raise ValueError("bad value description %r" % (desc,))
@@ -186,6 +201,21 @@ def ocanon(v):
         return ["gw", None if v.lab is None else {k: x for k, x in sorted(v.lab.__dict__.items())}]
     if isinstance(v, r["Delegations"]):
         return ["deleg", v.type.name, v.to_json()]
+    if isinstance(v, r["PathInfo"]):        # ERO is a PathInfo with a strict flag
+        pl = v.payload
+        if isinstance(pl, r["Path"]):
+            pl = {"a2z": pl.a2z, "z2a": pl.z2a}
+        out = [type(v).__name__, getattr(v.type, "name", v.type), pl]
+        if isinstance(v, r["ERO"]):
+            out.append(["strict", v.strict])
+        return out
+    if isinstance(v, r["MaintenanceInfo"]):
+        ents = []
+        for name, e in sorted(v.list_details(), key=lambda x: x[0]):
+            ents.append([name, getattr(e.state, "name", e.state),
+                         getattr(e, "deadline", None).isoformat() if getattr(e, "deadline", None) else None,
+                         getattr(e, "expected_end", None).isoformat() if getattr(e, "expected_end", None) else None])
+        return ["MaintenanceInfo", ents]
     if hasattr(v, "to_json"):
         return [type(v).__name__, v.to_json()]
     return ["other", type(v).__name__, repr(v)]
@@ -237,75 +267,116 @@ LABEL_KW = [{"vlan": "100"}, {"vlan_range": "1-100"}, {"ipv4": "192.168.1.1", "i
 CAP_KW = [{"core": 2}, {"cpu": 1, "core": 32, "ram": 128, "disk": 10}, {"bw": 100, "unit": 1}, {"mtu": 9000}, {"disk": 2 ** 40}, {"burst_size": 5, "bw": 1}]
 
 
-def gen_value(rng, kind, key, idx=0):
-    """value description for property `key` of a sliver of `kind` (JSON-serialisable)"""
+FLAG_BITS = ["auto_config", "auto_mount", "ipv4_management", "ptp"]
+JSON_TEXTS = ['{}', '{"a": 1}', '{"k": ["x", {"y": null}], "z": "\\u00fc"}', '[1, 2, 3]', '"str"', '{"a":1,  "b":2}', '17',
+              '{"t": true, "f": false, "n": null, "i": 0, "x": 1.5, "neg": -2, "nest": {"on": true, "off": false, "l": [true, false, 1, 0]}}',
+              'true', 'false', '[{"deep": [{"deeper": {"flag": true, "num": 1e3}}]}]']
+ENUMERATED = {"type", "layer", "mirror_direction", "stitch_node", "flags", "ero", "path_info", "gateway", "maintenance_info",
+              "mf_data", "user_data", "layout_data", "capacity_delegations", "label_delegations", "reservation_info",
+              "structural_info", "location", "capacity_hints", "tags", "management_ip"}
+
+
+def value_pool(kind, key):
+    """every value description the generator can produce for property `key` of a sliver of `kind`.  For the keys in
+    ENUMERATED the pool covers every member of every enum and every non-default value of every boolean / flag /
+    type-tag sub-field of the structured value, and it is run exhaustively (deterministic part of every run)."""
     r = R.get()
-    if key == "name":
-        return ["s", gen_name(rng, kind, idx)]
     if key == "type":
-        return ["e", r["TYPE"][kind].__name__, rng.choice(list(r["TYPE"][kind])).name]
+        return [["e", r["TYPE"][kind].__name__, m.name] for m in r["TYPE"][kind]]
     if key == "layer":
-        return ["e", "NSLayer", rng.choice(list(r["NSLayer"])).name]
+        return [["e", "NSLayer", m.name] for m in r["NSLayer"]]
     if key == "mirror_direction":
-        return ["e", "MirrorDirection", rng.choice(list(r["MirrorDirection"])).name]
+        return [["e", "MirrorDirection", m.name] for m in r["MirrorDirection"]]
     if key in STR_KEYS:
-        return ["s", rng.choice(STRS)]
+        return [["s", x] for x in STRS]
     if key == "stitch_node":
-        return ["b", rng.random() < 0.5]
-    if key == "node_map":
-        return ["t", ["".join(rng.choice(SAFE) for _ in range(rng.randrange(0, 9))) for _ in range(2)]]
+        return [["b", True], ["b", False]]
     if key == "management_ip":
-        return ["ip", rng.choice(["192.168.1.1", "10.0.0.254", "::1", "2001:db8::1", "255.255.255.255", "fe80::1"])]
+        return [["ip", x] for x in ["192.168.1.1", "10.0.0.254", "::1", "2001:db8::1", "255.255.255.255", "fe80::1"]]
     if key in ("capacities", "capacity_allocations"):
-        return ["F", "Capacities", rng.choice(CAP_KW + [{}])]
+        fields = list(r["Capacities"]().__dict__.keys())
+        return [["F", "Capacities", kw] for kw in CAP_KW + [{}] + [{f: 3} for f in fields]]
     if key == "capacity_hints":
-        return ["F", "CapacityHints", {"instance_type": rng.choice(["fabric.c2.m8.d10", "x", "a,b"])}]
+        return [["F", "CapacityHints", {"instance_type": x}] for x in ["fabric.c2.m8.d10", "x", "a,b"]]
     if key in ("labels", "label_allocations", "peer_labels"):
-        return ["F", "Labels", rng.choice(LABEL_KW + [{}])]
+        return [["F", "Labels", kw] for kw in LABEL_KW + [{}]]
     if key == "reservation_info":
-        return ["F", "ReservationInfo", rng.choice([{"reservation_id": "r-1", "reservation_state": "Active"},
-                                                    {"error_message": "it \"failed\", badly"}, {"reservation_id": "ü"}])]
+        return [["F", "ReservationInfo", kw] for kw in [{"reservation_id": "r-1", "reservation_state": "Active"},
+                                                       {"error_message": "it \"failed\", badly"}, {"reservation_id": "\u00fc"},
+                                                       {"reservation_state": "Failed"},
+                                                       {"reservation_id": "r", "reservation_state": "Ticketed", "error_message": "e"}]]
     if key == "structural_info":
-        return ["F", "StructuralInfo", rng.choice([{"sub_graph_id": "g1"}, {"parent_graph_id": "p", "adm_graph_ids": ["a", "b"]}])]
+        return [["F", "StructuralInfo", kw] for kw in [{"sub_graph_id": "g1"}, {"parent_graph_id": "p", "adm_graph_ids": ["a", "b"]},
+                                                      {"adm_graph_ids": ["only"]}, {"sub_graph_id": "s", "parent_graph_id": "p"}]]
     if key == "location":
-        return ["F", "Location", rng.choice([{"postal": "100 Europa Dr., Chapel Hill, NC 27517"}, {"lat": 35.9, "lon": -79.0},
-                                             {"lat": 0.0, "lon": 10.5}, {"postal": "x", "lat": 1.5, "lon": 2.5}])]
+        return [["F", "Location", kw] for kw in [{"postal": "100 Europa Dr., Chapel Hill, NC 27517"}, {"lat": 35.9, "lon": -79.0},
+                                                {"lat": 0.0, "lon": 10.5}, {"postal": "x", "lat": 1.5, "lon": 2.5}, {"lat": -0.5},
+                                                {"lon": 180.0}, {"lat": 0.0, "lon": 0.0}]]
     if key == "flags":
-        return ["F", "Flags", rng.choice([{"auto_config": True}, {"ptp": True, "auto_mount": True}, {"ipv4_management": True}, {}])]
+        # every single bit, every pair, all, none
+        out = [["F", "Flags", {b: True}] for b in FLAG_BITS]
+        out += [["F", "Flags", {a: True, b: True}] for i, a in enumerate(FLAG_BITS) for b in FLAG_BITS[i + 1:]]
+        out += [["F", "Flags", {b: True for b in FLAG_BITS}], ["F", "Flags", {}], ["F", "Flags", {"auto_config": False, "ptp": True}]]
+        return out
     if key in ("mf_data", "user_data", "layout_data"):
         cls = {"mf_data": "MeasurementData", "user_data": "UserData", "layout_data": "LayoutData"}[key]
-        return ["J", cls, rng.choice(['{}', '{"a": 1}', '{"k": ["x", {"y": null}], "z": "\\u00fc"}', '[1, 2, 3]', '"str"', '{"a":1,  "b":2}', '17'])]
+        return [["J", cls, t] for t in JSON_TEXTS]
     if key == "tags":
-        return ["tags", rng.choice([["t1"], ["blue", "green"], ["a-b", "c_d", "\u00fc9"], []])]
+        return [["tags", x] for x in [["t1"], ["blue", "green"], ["a-b", "c_d", "\u00fc9"], []]]
     if key == "gateway":
-        return ["gw", rng.choice([{"ipv4": "192.168.1.1", "ipv4_subnet": "192.168.1.0/24"},
-                                  {"ipv6": "2001:db8::1", "ipv6_subnet": "2001:db8::/64", "mac": "00:11:22:33:44:55"}])]
+        v4 = {"ipv4": "192.168.1.1", "ipv4_subnet": "192.168.1.0/24"}
+        v6 = {"ipv6": "2001:db8::1", "ipv6_subnet": "2001:db8::/64"}
+        mac = {"mac": "00:11:22:33:44:55"}
+        return [["gw", v4], ["gw", dict(v4, **mac)], ["gw", v6], ["gw", dict(v6, **mac)], ["gw", dict(v4, **v6)]]
     if key in ("capacity_delegations", "label_delegations"):
         at = "CAPACITY" if key.startswith("capacity") else "LABEL"
         det = {"core": 4} if at == "CAPACITY" else {"vlan_range": "1-100"}
-        return ["deleg", at, rng.choice([[["SinglePool", "del1", None, det]],
-                                         [["PoolDefinition", "del2", "pool1", det], ["PoolReference", "del3", "pool1", None]],
-                                         [["SinglePool", "d1", None, det], ["SinglePool", "d2", None, det]]])]
+        return [["deleg", at, x] for x in [[["SinglePool", "del1", None, det]],
+                                           [["PoolDefinition", "del2", "pool1", det], ["PoolReference", "del3", "pool1", None]],
+                                           [["SinglePool", "d1", None, det], ["SinglePool", "d2", None, det]],
+                                           [["PoolDefinition", "d", "p", det]]]]
     if key in ("ero", "path_info"):
-        return ["ero" if key == "ero" else "pinfo", rng.choice([[["a", "b", "c"]], [["a", "b"], ["b", "a"]], [["x"]]])]
+        tag = "ero" if key == "ero" else "pinfo"
+        payloads = [[["a", "b", "c"]], [["a", "b"], ["b", "a"]], [["x"]], "graph-id-1", None]
+        if key == "ero":     # [payload, strict]: both values of the flag with every payload form
+            return [[tag, pl, st] for pl in payloads for st in (True, False)]
+        return [[tag, pl] for pl in payloads]
     if key == "maintenance_info":
-        return ["maint", rng.choice([[["node1", "Active"]], [["node1", "Maint"], ["w2", "PreMaint"]], [["ALL", "Active"]]])]
-    raise KeyError("no generator for property %s" % key)
+        states = [m.name for m in r["MaintenanceState"]]
+        out = [["maint", [["node1", st]]] for st in states]
+        out += [["maint", [["node1", "Maint", "2026-01-02T03:04:05", "2026-01-03T00:00:00+00:00"], ["w2", "PreMaint", "2026-05-06T07:08:09", None]]],
+                ["maint", [["ALL", "Active"]]], ["maint", [[n, st] for n, st in zip(["a1", "b2", "c3", "d4"], states)]]]
+        return out
+    return None
+
+
+def gen_value(rng, kind, key, idx=0):
+    """value description for property `key` of a sliver of `kind` (JSON-serialisable)"""
+    if key == "name":
+        return ["s", gen_name(rng, kind, idx)]
+    if key == "node_map":
+        return ["t", ["".join(rng.choice(SAFE) for _ in range(rng.randrange(0, 9))) for _ in range(2)]]
+    pool = value_pool(kind, key)
+    if pool is None:
+        raise KeyError("no generator for property %s" % key)
+    return rng.choice(pool)
 
 
 def usable(desc):
-    """codec objects whose C03 codec does not round-trip standalone are C03's subject"""
+    """A value the conversions can be asked to preserve.  The one class left out is an all-default JSONField object
+    (`Capacities()`, `Labels()`, ...): it encodes to the empty text, which *is* the encoding of None (C03 `roundtrip_iff`
+    characterises exactly this).  Anything else is demanded, whichever layer loses it."""
     try:
         v = mk_value(desc)
     except Exception:
         return False
-    try:
-        back = std_codec(v)
-    except Exception:
-        return False
-    if back is None:
-        return not hasattr(v, "to_json") and not hasattr(v, "json")
-    return canon(ocanon(back)) == canon(ocanon(v))
+    r = R.get()
+    if isinstance(v, r["JSONField"]):
+        try:
+            return v.to_json() != ""
+        except Exception:
+            return True
+    return True
 
 
 def gen_fields(rng, kind, idx, density, res=None):
@@ -317,7 +388,7 @@ def gen_fields(rng, kind, idx, density, res=None):
             if usable(d):
                 f[k] = d
             elif res is not None:
-                res.count("skipped:codec-lossy:" + k)
+                res.count("skipped:empty-jsonfield:" + k)
     return f
 
 
@@ -370,8 +441,13 @@ def gen_cases(ctx, rng, n, res=None):
         cases.append(gen_tree(rng, kind, [0], 0, 0.0, res))
         cases.append(gen_tree(rng, kind, [0], 0, 1.0, res))
         for k in settable(kind):            # one property at a time next to the name
-            for rep in range(ctx.scale(1, 2)):
-                d = gen_value(rng, kind, k, 1)
+            if k in ENUMERATED:             # every member / every non-default sub-field value, every run
+                descs = value_pool(kind, k)
+            elif k in STR_KEYS and ctx.thorough:
+                descs = value_pool(kind, k)
+            else:
+                descs = [gen_value(rng, kind, k, 1) for rep in range(ctx.scale(1, 2))]
+            for d in descs:
                 if usable(d):
                     t = gen_tree(rng, kind, [0], 0, 0.0, res)
                     t["f"][k] = d
@@ -584,12 +660,12 @@ def correspondence(ctx, res):
         impl.append(["ok", {"back": b}])
         meta.append(t)
     # 4. set / get / unset on real elements
-    for case in load_corpus("elem") + gen_elem_cases(ctx, ctx.sub_rng("corr-elem"), ctx.scale(1, 6)):
+    for case in load_corpus("elem") + gen_elem_cases(ctx, ctx.sub_rng("corr-elem"), ctx.scale(1, 6), full=ctx.thorough):
         out = run_elem_case(case)
-        for kind, gprops, ops, replies in out["streams"]:
+        for (kind, gprops, ops, replies), o in zip(out["streams"], out["obs"]):
             reqs.append(["elem", kind, gprops, ops])
             impl.append(["ok", replies])
-            meta.append(case)
+            meta.append({"elem": [[o["kind"], o["key"], o["value"]]]})
     model = LeanDriver("C02").run([json.dumps(r) for r in reqs])
     for r, i, m, t in zip(reqs, impl, model, meta):
         res.evaluations += 1
@@ -610,7 +686,8 @@ def correspondence(ctx, res):
                 if isinstance(x, list) and x and x[0] == "err":
                     res.count("err:" + x[1])
         if canon(mj) != canon(i):
-            res.disagreements.append({"case": r, "impl": i, "model": mj})
+            # `orig` is the case description the oracle understands: search() replays it through the property oracle
+            res.disagreements.append({"case": r, "impl": i, "model": mj, "orig": t if "elem" in t else {"tree": t}})
     if reqs:
         res.sample({"request": reqs[3], "impl": impl[3], "model": json.loads(model[3])})
         res.sample({"request": reqs[-1], "impl": impl[-1], "model": json.loads(model[-1])})
@@ -649,15 +726,24 @@ def make_topology():
     return t, {"node": n1, "component": c1, "service": svc, "interface": i1, "link": link}
 
 
-def gen_elem_cases(ctx, rng, reps):
-    """a case = list of (kind, key, value description) triples, each run as set/get/unset/get on a fresh topology"""
+def gen_elem_cases(ctx, rng, reps, full=True):
+    """a case = list of (kind, key, value description) triples, each run as set/get/unset/get on a fresh topology.
+    First pass: every settable name of every element kind with every pool value of the enumerated keys (so both
+    booleans, every enum member, every flag bit); further passes: random values."""
     cases = []
     for rep in range(reps):
         for kind in KINDS:
             triples = []
             for k in settable(kind):
-                for _ in range(2 if rep == 0 else 1):
-                    d = gen_value(rng, kind, k, 7)
+                if rep == 0 and full and k in ENUMERATED:
+                    descs = value_pool(kind, k)
+                    if k == "type":
+                        descs = descs[:3]
+                elif rep == 0 and k == "stitch_node":
+                    descs = value_pool(kind, k)
+                else:
+                    descs = [gen_value(rng, kind, k, 7) for _ in range(2 if rep == 0 else 1)]
+                for d in descs:
                     if usable(d):
                         triples.append([kind, k, d])
             cases.append({"elem": triples})
@@ -893,7 +979,21 @@ def oracle(ctx, res, n=None):
 
 
 def search(ctx, res, broken):
-    oracle(ctx, res, n=ctx.scale(1500, 8000))
+    """a link broke and the oracle run reported nothing new: first the differing correspondence cases themselves go
+    through the property oracle (per-field comparison on all paths / set-get-unset), then the generator with a larger budget"""
+    for link, detail in broken:
+        if link == "correspondence" and isinstance(detail, list):
+            for d in detail:
+                orig = d.get("orig") if isinstance(d, dict) else None
+                if not orig:
+                    continue
+                res.evaluations += 1
+                if "tree" in orig:
+                    check_tree(orig["tree"], res)
+                else:
+                    check_elem(orig, res)
+    if not res.violations:
+        oracle(ctx, res, n=ctx.scale(1500, 8000))
 
 
 def replay(ctx, payload):
